@@ -12,7 +12,7 @@ def plan(tier):
     for s in (1, -1):
         I.append(inst(f"point_along[n=2,kernel-sign={s}]", 'harness.c13', 'point_along', dict(n=2), opts=dict(fix={"_k1_e0": s}), weight=50, timeout_s=1200))
         I.append(inst(f"reach-target[n=2,kernel-sign={s}]", 'harness.c13', 'reach_target', dict(n=2), opts=dict(fix={"_k1_e0": s}), weight=80, timeout_s=1500))
-        if not q:
+        if True:
             I.append(inst(f"tangent-origin_to[n=2,kernel-sign={s}]", 'harness.c13', 'tangent_origin_to', dict(n=2), opts=dict(fix={"_k1_e0": s}), weight=200, timeout_s=2400))
     I.append(inst("angle-law-of-cosines[n=2]", 'harness.c13', 'angle', dict(n=2), weight=100, timeout_s=1500))
     if not q:
